@@ -261,6 +261,13 @@ def gen(tier: str, seed: int) -> list[Case]:
         gts = {"pk.a_documented": dict(bare_gt), "pk.b_legacy_root": dict(bare_gt), "pk.legacy.b_legacy": dict(bare_gt), "pk.z_last": dict(bare_gt)}
         for nc in (False, True):
             cases.append(Case(cid=f"c20-doc-{style}-{int(nc)}", files=files, opts=["--docstyle", style] + (["-nc"] if nc else []), meta={"gt": gts}, reach=REACH))
+    # packages without ground truth (every declaration form of C01's library): no marker may be left before a closing
+    # brace, at the end of a module or in its header, none repeated on one declaration, every marker a known text
+    from . import c01
+
+    for i in range(3 if tier == "quick" else 60):
+        ks = c01.kitchen_sink(rng_for(seed, PID, "kitchen-sink", i), gated, 190 + i)
+        cases.append(Case(cid=f"c20-kitchen-{i}", files=ks, opts=[[], ["-nc", "--docstyle", "numpydoc"], ["--docstyle", "google", "-tsp", "docstring"], ["-nc"]][i % 4], meta={"gt": {}, "structure_only": True}, reach=REACH))
     return cases
 
 
@@ -272,8 +279,9 @@ def make_judge(chk: Check):
             chk.discarded[f"unparsable-stub:{e.rule}"] += 1
         for rel, m in ss.files.items():
             gt = case.meta["gt"].get(m.py_module)
-            if gt is None:
+            if gt is None and not case.meta.get("structure_only"):
                 continue
+            gt = gt or {}
             if m.dangling and any(k == "line" for k, _t, _l in m.dangling):
                 viols.append(Viol("marker-on-no-declaration", "end-of-module", {"file": rel, "comments": [t for _k, t, _l in m.dangling]}))
             hdr = [t for k, t, _l in m.header_comments if k == "line"]
@@ -284,7 +292,15 @@ def make_judge(chk: Check):
                     viols.append(Viol("marker-on-no-declaration", "end-of-class-body", {"file": rel, "class": d.path(), "comments": [t for _k, t, _l in d.dangling]}))
                 exp = gt.get(d.path())
                 if exp is None:
-                    if d.todos and d.pyname not in ("Base0", "Base1", "Base2"):
+                    if case.meta.get("structure_only"):
+                        # no ground truth: markers must still be known texts and not be repeated on one declaration
+                        unknown = [t for t in d.todos if t not in BY_TEXT and t not in OUTSIDE]
+                        if unknown:
+                            viols.append(Viol("unknown-marker-text", "model-free", {"file": rel, "decl": d.path(), "texts": unknown}))
+                        if len(d.todos) != len(set(d.todos)):
+                            viols.append(Viol("marker-repeated", "model-free", {"file": rel, "decl": d.path(), "texts": d.todos}))
+                        chk.case_ok("model-free:" + d.kind, ident=(case.cid, rel, d.path()))
+                    elif d.todos and d.pyname not in ("Base0", "Base1", "Base2"):
                         chk.discarded["declaration-without-ground-truth"] += 1
                     continue
                 got_txt = d.todos
